@@ -7,6 +7,9 @@ _STREAMS = [
         1: "record-export-does-not-validate", 2: "record-import-panics",
         32: "record-second-export-loses-records", 42: "record-record-lost-on-import",
         31: "record-ids-change-on-import", 41: "record-ids-change-on-import"}),
+    ("htlc", 60, 1500, "Genesis.Htlc", "check_htlc", {
+        1: "htlc-export-does-not-validate", 2: "htlc-import-panics", 3: "htlc-second-export-differs",
+        4: "htlc-query-differs-after-import", 5: "htlc-expiration-queue-not-rebuilt"}),
 ]
 
 PROPS["C12"] = dict(
